@@ -53,6 +53,7 @@ THEOREMS = [NS + n for n in [
     "keyed_sort_perm_invariant",
     "keyed_sort_needs_injective_key",
     "sort_calls_ok",
+    "mutated_class_tables_ok",
     "tsort_inner_order_independent",
     "absorb_order_independent",
     "absorbed_superset_order_independent",
@@ -317,6 +318,71 @@ def dispatch_fill_shape(chk=None):
     return out
 
 
+TABLE_MUT = {"pop", "update", "discard", "add", "append", "extend", "insert", "remove", "clear", "setdefault", "popitem"}
+UPPER_RE = re.compile(r"^_?[A-Z][A-Z0-9_]*$")
+
+
+def mutated_class_tables():
+    """class-level / module-level tables (UPPER_CASE names) that are MUTATED after they were created: `.pop(` / `.update(` /
+    `x[...] =` / `del x[...]` … on anything but the scope's own fresh object.  (file, where, target, how).  A table shared
+    between classes or modules and mutated at some later time makes results depend on what was imported / called first."""
+    out = set()
+
+    def chain(node):
+        parts = []
+        while isinstance(node, ast.Attribute):
+            parts.append(node.attr)
+            node = node.value
+        if not isinstance(node, ast.Name):
+            return None
+        parts.append(node.id)
+        return list(reversed(parts))
+
+    def own_names(body):
+        """names bound in this scope to a FRESH object (an alias `X = Other.X` is not the scope's own object)"""
+        names = set()
+        for st in body:
+            if isinstance(st, (ast.Assign, ast.AnnAssign, ast.AugAssign)):
+                if isinstance(getattr(st, "value", None), (ast.Name, ast.Attribute)):
+                    continue
+                for tg in (st.targets if isinstance(st, ast.Assign) else [st.target]):
+                    for n in ast.walk(tg):
+                        if isinstance(n, ast.Name) and isinstance(n.ctx, ast.Store):
+                            names.add(n.id)
+        return names
+
+    for path in sorted(glob.glob(os.path.join(REPO, "sqlglot", "**", "*.py"), recursive=True)):
+        rel = os.path.relpath(path, REPO)
+        t = ast.parse(open(path, encoding="utf-8").read())
+
+        def scan_nodes(root, where, own):
+            for n in ast.walk(root):
+                tgt = how = None
+                if isinstance(n, ast.Call) and isinstance(n.func, ast.Attribute) and n.func.attr in TABLE_MUT:
+                    tgt, how = n.func.value, n.func.attr
+                elif isinstance(n, ast.Subscript) and isinstance(n.ctx, (ast.Store, ast.Del)):
+                    tgt, how = n.value, "setitem" if isinstance(n.ctx, ast.Store) else "delitem"
+                if tgt is None:
+                    continue
+                ch = chain(tgt)
+                if not ch or not UPPER_RE.match(ch[-1]) or (len(ch) == 1 and ch[0] in own):
+                    continue
+                out.add((rel, where, ".".join(ch), how))
+
+        def scan(stmts, where, own):
+            for st in stmts:
+                if isinstance(st, (ast.FunctionDef, ast.AsyncFunctionDef)):
+                    loc = {n.id for n in ast.walk(st) if isinstance(n, ast.Name) and isinstance(n.ctx, ast.Store)}
+                    scan_nodes(st, where + st.name, loc)
+                elif isinstance(st, ast.ClassDef):
+                    scan(st.body, where + st.name + ".", own_names(st.body))
+                else:
+                    scan_nodes(st, where.rstrip(".") or "<module>", own)
+
+        scan(t.body, "", own_names(t.body))
+    return sorted(out)
+
+
 SORT_FILES = ["sqlglot/helper.py", "sqlglot/optimizer/simplify.py", "sqlglot/optimizer/optimize_joins.py",
               "sqlglot/optimizer/eliminate_subqueries.py", "sqlglot/optimizer/normalize.py", "sqlglot/optimizer/merge_subqueries.py",
               "sqlglot/optimizer/eliminate_joins.py", "sqlglot/optimizer/scope.py"]
@@ -363,6 +429,12 @@ def translate(chk) -> str:
     L.append("def dialectInit : List (String × String) := " + lean_list("(" + lean_str(a) + ", " + lean_str(b) + ")" for a, b in dinit))
     L.append("def dialectWritten : List String := " + lean_list(lean_str(a) for a in dwritten))
     L.append("def dispatchCacheFill : List String := " + lean_list(lean_str(a) for a in dispatch_fill_shape(chk)))
+    mt = mutated_class_tables()
+    chk.cov["mutated_class_tables"] = len(mt)
+    L.append("/-- (file, where, target, how): UPPER_CASE tables mutated after their creation -/")
+    L.append("def mutatedClassTables : List (String × String × String × String) := [")
+    L += ["  (" + ", ".join(lean_str(x) for x in e) + ")" + ("," if i + 1 < len(mt) else "") for i, e in enumerate(mt)]
+    L.append("]")
     sc = sort_calls()
     chk.cov["sort_calls"] = len(sc)
     L.append("/-- (file, function, call, key=, reverse=): the sort calls of the modules whose algorithms put sets into an order -/")
@@ -563,6 +635,32 @@ def run_case(op, a):
         d = custom_dialect(a["which"])
         e = parse_one(a["sql"], read=d)
         return e.sql(dialect=d, identify=True) + " || " + e.sql(dialect=d) + " || " + str(sqlglot.transpile(a["sql"], read=d, write=d))
+    if op == "pair":    # use dialect `first` (if any), then answer a fixed corpus with dialect `second`
+        outs = []
+        if a.get("first") == "*":   # every dialect module imported, every dialect class created and used once
+            from sqlglot.dialects.dialect import Dialect
+            import sqlglot.dialects as dmod
+            for name in sorted(dmod.DIALECT_MODULE_NAMES):
+                try:
+                    Dialect.get_or_raise(name).generate(parse_one("SELECT 1"))
+                except Exception:  # noqa
+                    pass
+        elif a.get("first"):
+            for q in a["corpus"]:
+                try:
+                    sqlglot.transpile(q, read=a["first"], write=a["first"])
+                except Exception:  # noqa
+                    pass
+        for q in a["corpus"]:
+            try:
+                outs.append(" ;; ".join(sqlglot.transpile(q, read=None, write=a["second"])))
+            except Exception as e:  # noqa
+                outs.append("EXC:" + type(e).__name__)
+            try:
+                outs.append(parse_one(q, read=a["second"]).sql(dialect=a["second"]))
+            except Exception as e:  # noqa
+                outs.append("EXC:" + type(e).__name__)
+        return "\n".join(outs)
     if op == "dialect_settings":   # settings-string dialects; here the error TEXT counts as the answer
         from sqlglot.dialects.dialect import Dialect
         try:
@@ -724,6 +822,19 @@ def build_family(chk, n_var):
             fam.append([f"gdir{j}", "gen_direct", {"sql": sql, "write": d}])
             fam.append([f"pdir{j}", "parser_direct", {"sql": sql, "read": d}])
             j += 1
+    # a statement that fails half-way through a construct, then statements using the same keywords: a parse that raises
+    # must leave no trace in tables shared by the parser class
+    for k, (bad_sql, probes) in enumerate([
+        ("SELECT a FROM t START WITH a = 1 CONNECT BY PRIOR a = (", ["SELECT PRIOR x FROM t", "SELECT PRIOR(x), prior FROM t", "SELECT a FROM t START WITH a = 1 CONNECT BY PRIOR a = b"]),
+        ("SELECT CASE WHEN a THEN (", ["SELECT CASE WHEN a THEN b ELSE c END, \"end\" FROM t"]),
+        ("SELECT x -> (", ["SELECT FILTER(arr, x -> x > 1), x -> 'k' FROM t"]),
+        ("SELECT CAST(a AS STRUCT<b INT, (", ["SELECT CAST(a AS STRUCT<b INT, c TEXT>), struct FROM t"]),
+        ("WITH c AS (SELECT 1 UNION SELECT (", ["WITH c AS (SELECT 1 UNION SELECT 2) SELECT * FROM c"]),
+    ]):
+        for rd in (None, "oracle", "snowflake"):
+            fam.append([f"fail{k}{rd}", "parse", {"sql": bad_sql, "read": rd}])
+            for pi, q in enumerate(probes):
+                fam.append([f"probe{k}{rd}_{pi}", "sql", {"sql": q, "read": rd, "write": rd, "pretty": False}])
     for spec in ("mysql, normalization_strategy = case_sensitive, version = 8.0", "mysql, version = 8.0, normalization_strategy = case_sensitive",
                  "snowflake, normalization_strategy = lowercase", "duckdb, version = 1.2", "mysql, foo = 1, bar = 2, baz = 3",
                  "presto, nope = 1, zzz", "bigquery,,"):
@@ -763,6 +874,75 @@ def build_tie_family(chk):
         rng.shuffle(dag)
         cases.append([f"tie{i}t", "tsort", {"dag": dag, "sql": "tsort " + " ".join(f"{k} <- {' '.join(v)} ;" for k, v in dag)}])
     return cases
+
+
+PAIR_CORPUS = [
+    "SELECT JSON_EXTRACT(x, '$.a[*].b'), JSON_EXTRACT_SCALAR(x, '$.a.b[0]'), JSON_EXTRACT(x, '$..c') FROM t",
+    "SELECT CAST(a AS TIMESTAMP WITH TIME ZONE), CAST(b AS DECIMAL(10, 2)), CAST(c AS ARRAY<INT>), CAST(d AS TEXT) FROM t",
+    "SELECT DATE_ADD(a, INTERVAL 1 DAY), DATE_TRUNC('week', a), STR_TO_DATE(s, '%Y-%m-%d'), a || b, a ILIKE 'x%' FROM t",
+    "SELECT a AS \"b c\", 'it''s', x'FF', TRUE FROM db.t AS u WHERE a IS DISTINCT FROM b ORDER BY a NULLS FIRST LIMIT 3",
+    "CREATE TABLE t (a INT PRIMARY KEY, b VARCHAR(10) DEFAULT 'x', c DOUBLE) PARTITIONED BY (a)",
+    "SELECT ARRAY_AGG(a ORDER BY b), APPROX_DISTINCT(a), ARRAY[1, 2][1], STRUCT(1 AS x), UNNEST(arr) FROM t GROUP BY ALL",
+    "SELECT * FROM t TABLESAMPLE (10 PERCENT) QUALIFY ROW_NUMBER() OVER (PARTITION BY a ORDER BY b) = 1",
+    "SELECT x -> '$.k', x ->> 'k', LEVENSHTEIN(a, b), IF(a, 1, 2), TRY_CAST(a AS INT), a % 2, LOG(2, a) FROM t",
+    "SELECT INTERVAL '1' YEAR_MONTH, INTERVAL 5 DAY_SECOND, INTERVAL '1' day, a + INTERVAL 2 WEEK, INTERVAL '3' HOUR_MINUTE AS x FROM t",
+    "SELECT PRIOR x, a FROM t START WITH a = 1 CONNECT BY PRIOR a = b",
+]
+
+
+def related_dialect_pairs(transitive=False):
+    """(A, B): B's dialect / generator / parser module imports A's, or B's generator / parser / tokenizer class has A's in its
+    MRO — the pairs in which one side may share or copy class tables of the other"""
+    from sqlglot.dialects.dialect import Dialect
+    from vf.props import c14
+    names = [d for d in c14.all_dialects() if d]
+    pairs = set()
+    for b in names:
+        for sub in ("dialects", "generators", "parsers"):
+            path = os.path.join(REPO, "sqlglot", sub, f"{b}.py")
+            if not os.path.exists(path):
+                continue
+            for n in ast.walk(ast.parse(open(path, encoding="utf-8").read())):
+                if isinstance(n, ast.ImportFrom) and n.module:
+                    m = re.fullmatch(r"sqlglot\.(dialects|generators|parsers)\.(\w+)", n.module)
+                    if m and m.group(2) in names and m.group(2) != b:
+                        pairs.add((m.group(2), b))
+    cls_of = {}
+    for d in names:
+        D = Dialect.get_or_raise(d)
+        cls_of[d] = (type(D).generator_class, type(D).parser_class, type(D).tokenizer_class, type(D))
+    for a in names:
+        for b in names:
+            if a != b and any(ca in cb.__mro__[1:] for ca, cb in zip(cls_of[a], cls_of[b])):
+                pairs.add((a, b))
+    return sorted(pairs)
+
+
+def pair_sweep(chk, width=8):
+    """every related pair in both orders against the second dialect alone, each run in its own new process"""
+    pairs = related_dialect_pairs()
+    involved = sorted({x for p in pairs for x in p})
+    from vf.props import c14
+    every = [d for d in c14.all_dialects() if d]
+    specs = [(None, x) for x in every] + [("*", x) for x in every] + [(a, b) for a, b in pairs] + [(b, a) for a, b in pairs]
+    res = {}
+    for i in range(0, len(specs), width):
+        batch = []
+        for first, second in specs[i:i + width]:
+            case = [f"pair:{first}>{second}", "pair", {"first": first, "second": second, "corpus": PAIR_CORPUS, "sql": f"pair {first} {second}"}]
+            batch.append(((first, second), case, spawn([case], [0], 0)))
+        for key, case, (p, path) in batch:
+            res[key] = collect(p, path).get(case[0])
+    found = []
+    for (first, second), out in res.items():
+        if first is None or out == res[(None, second)]:
+            continue
+        alone = str(res[(None, second)]).split("\n")
+        after = str(out).split("\n")
+        j = next((i for i, (x, y) in enumerate(zip(alone, after)) if x != y), 0)
+        found.append((first, second, PAIR_CORPUS[j // 2], alone[j] if j < len(alone) else "", after[j] if j < len(after) else ""))
+    chk.cov["dialect_pairs"] = {"pairs": len(pairs), "processes": len(specs)}
+    return found
 
 
 def fresh_reference(cases, hashseed=0, width=8):
@@ -1062,6 +1242,13 @@ def search(chk, hints, budget_s):
                              {"kind": "sweep", "case": small, "original": c[2]["sql"], "hashseeds": [tie_seeds[0], tie_seeds[first]],
                               "outputs": [str(vals[0])[:300], str(vals[first])[:300]], "seeds_by_output": split, "isolated_repro": True},
                              {"op": c[1], "why": "hash-seed"})
+    # --- related dialect pairs: B after A vs B alone (class tables copied / shared between dialect classes)
+    pair_found = pair_sweep(chk)
+    for first, second, q, alone, after in pair_found[:3]:
+        chk.report_violation(f"history:pair:{second}|after:{first}:{abstract_sql(q)}",
+                             f"dialect {second} answers {after[:100]!r} after {'every other dialect' if first == '*' else 'dialect ' + first} was used in the same process, {alone[:100]!r} in a fresh process",
+                             {"kind": "pair", "first": first, "second": second, "sql": q, "fresh": alone[:400], "after": after[:400]},
+                             {"op": "pair", "why": "history"})
     # --- every family case against a brand-new process: what ran earlier in the same process must not matter
     ref = fresh_reference(family, configs[0][0])
     hist_found = 0
@@ -1097,7 +1284,7 @@ def search(chk, hints, budget_s):
     n, found = reuse_checks(chk, max(4.0, budget_s - (time.time() - t0)))
     chk.search_info = {"ran": True, "budget_s": budget_s, "sweep_cases": len(cases), "subprocesses": len(configs),
                        "family_cases_vs_fresh_process": len(family), "tie_family_cases": len(tie), "tie_family_hashseeds": tie_seeds,
-                       "tie_family_differences": len(tdiffs), "history_differences": hist_found,
+                       "tie_family_differences": len(tdiffs), "dialect_pair_differences": len(pair_found), "history_differences": hist_found,
                        "hashseeds": [c[0] for c in configs], "differing_cases": len(diffs), "reuse_calls": n, "reuse_differences": found,
                        "oracle": "byte-identical outputs across PYTHONHASHSEED values and processing orders; reused Parser/Tokenizer/Generator/"
                                  "Dialect/MappingSchema answers equal a fresh object's (also after an exception in the middle of a call)"}
@@ -1139,6 +1326,14 @@ def replay(path: str) -> int:
     if not r:
         print(json.dumps(rec, indent=1)[:4000])
         return 1
+    if r["kind"] == "pair":
+        outs = []
+        for first in (None, r["first"]):
+            case = ["p", "pair", {"first": first, "second": r["second"], "corpus": [r["sql"]], "sql": "pair"}]
+            p, path = spawn([case], [0], 0)
+            outs.append(collect(p, path).get("p"))
+        print("replay:", f"VIOLATES: alone {outs[0]!r}, after {r['first']} {outs[1]!r}" if outs[0] != outs[1] else "holds")
+        return 1 if outs[0] != outs[1] else 0
     if r["kind"] == "history":
         cs = r["history"] + [r["case"]]
         p, path = spawn(cs, list(range(len(cs))), r["hashseed"])
